@@ -21,5 +21,6 @@ def run(ctx, rep):
     e9_relations.run(facts, rep, parts=('R1', 'R4'))
     e8_formulas.check_cob_formulas(facts, rep)
     e8_formulas.check_elimination(facts, rep)
+    e8_formulas.check_pivot_eligibility(facts, rep)
     e8_formulas.check_koszul_sign(facts, rep)
     e1_typestate.run_type(facts, rep, specs.COB, 'Cob', 15)
